@@ -34,13 +34,14 @@ def mc_replay_many(ctx, runs, parallel=4, **common):
 
 
 def mc_replay(ctx, cfgname, over=None, label=None, driver="kernel", module="KernelMC", limit=None,
-              required=(), timeout=3400, wrap=None, _result=None):
+              required=(), timeout=3400, wrap=None, _result=None, simulate=None, depth=None):
     """Exhaustive run of the kernel spec over all programs within the bounds; every emitted program is executed
     on the real kernel and its log compared with the log the specification predicts (spec -> code)."""
     # -coverage is switched off for the kernel spec: with its large CASE expressions TLC's coverage bookkeeping makes
     # the run orders of magnitude slower; vacuity is judged from the emitted logs instead (classify()).
+    extra = {"simulate": simulate, "depth": depth, "seed": ctx.seed + 1} if simulate else {}
     r = _result if _result is not None else ctx.mc(module, cfg_text(cfgname, over), "kernel", required_actions=required,
-                                                   label=label or "%s/%s" % (module, cfgname), timeout=timeout, coverage=False)
+                                                   label=label or "%s/%s" % (module, cfgname), timeout=timeout, coverage=False, **extra)
     progs = {}
     for w in r.emitted():
         progs.setdefault(json.dumps(w["script"], sort_keys=True), w)
